@@ -140,7 +140,9 @@ theorem updateTable_frame (c : Client) (name m : Bytes) (chs : List IndexChange)
     · rfl
     · generalize updateTable.go _ chs = res
       obtain ⟨t2, e⟩ := res
-      cases e <;> exact alookup_ainsert_ne _ _ h
+      cases e
+      · exact alookup_ainsert_ne _ _ h
+      · rfl
 
 def IsUpdate : Op → Prop
   | .update .. => True
@@ -297,10 +299,15 @@ theorem keyed_tablePred : TablePred Keyed where
       generalize updateTable.go { t with attrs := A } chs = res at ht' hattrs hkeeps hsch
       obtain ⟨t2, e⟩ := res
       simp only at ht' hattrs hkeeps hsch
-      have : t' = t2 := by
-        cases e <;> (simp only [alookup_ainsert_self, Option.some.injEq] at ht'; exact ht'.symm)
-      subst this
-      exact keyed_congr hk hsch hkeeps.2 (by rw [hattrs]; exact hattr.1) (by rw [hattrs]; exact hattr.2)
+      cases e with
+      | some cls =>
+        simp only at ht'
+        rw [ht] at ht'; cases ht'; exact hk
+      | none =>
+        have : t' = t2 := by
+          simp only [alookup_ainsert_self, Option.some.injEq] at ht'; exact ht'.symm
+        subst this
+        exact keyed_congr hk hsch hkeeps.2 (by rw [hattrs]; exact hattr.1) (by rw [hattrs]; exact hattr.2)
 
 /-- **in every state reachable without UpdateItem every item is stored under the key string of its own key
     attributes**: the pagination theorems apply to all those states -/
